@@ -211,7 +211,42 @@ func TestVerifC15Raw(t *testing.T) {
 		Gen: func(t *rapid.T) vfC15RawCase {
 			c := vfC15RawCase{Server: rapid.Bool().Draw(t, "server"), CloseErr: rapid.IntRange(0, 4).Draw(t, "closeErr") == 0}
 			gen := func(label string, preface bool) []byte {
-				switch rapid.IntRange(0, 3).Draw(t, label+"-kind") {
+				switch rapid.IntRange(0, 5).Draw(t, label+"-kind") {
+				case 4, 5:
+					// a well-framed but protocol-violating peer: whole frames of a valid exchange dropped,
+					// duplicated or swapped (DATA before HEADERS, trailers twice, DATA after END_STREAM ...)
+					b := valid[map[bool]int{true: 0, false: 1}[preface]]
+					prefix := 0
+					if preface {
+						prefix = len(clientPreface)
+					}
+					var frames [][]byte
+					for off := prefix; off+9 <= len(b); {
+						ln := int(b[off])<<16 | int(b[off+1])<<8 | int(b[off+2])
+						if off+9+ln > len(b) {
+							break
+						}
+						frames = append(frames, b[off:off+9+ln])
+						off += 9 + ln
+					}
+					for i, n := 0, rapid.IntRange(1, 2).Draw(t, label+"-nedits"); i < n && len(frames) > 0; i++ {
+						k := rapid.IntRange(0, len(frames)-1).Draw(t, label+"-frame")
+						switch rapid.IntRange(0, 2).Draw(t, label+"-edit") {
+						case 0:
+							frames = append(frames[:k:k], frames[k+1:]...)
+						case 1:
+							frames = append(frames[:k+1:k+1], frames[k:]...)
+						default:
+							if k+1 < len(frames) {
+								frames[k], frames[k+1] = frames[k+1], frames[k]
+							}
+						}
+					}
+					out := append([]byte{}, b[:prefix]...)
+					for _, f := range frames {
+						out = append(out, f...)
+					}
+					return out
 				case 0:
 					return rapid.SliceOfN(rapid.Byte(), 0, 200).Draw(t, label+"-bytes")
 				case 1:
